@@ -16,7 +16,7 @@ BIN="$BUILD/simcheck"
 
 build() {
   mkdir -p "$BUILD"
-  cp "$REPO/go.sum" "$HERE/harness/go.sum" 2>/dev/null
+  [ -f "$HERE/harness/go.sum" ] || cp "$REPO/go.sum" "$HERE/harness/go.sum"
   local modflag=""
   if [ "$REPO" != "/repo" ]; then
     sed "s#=> /repo#=> $REPO#" "$HERE/harness/go.mod" > "$BUILD/alt.mod"
